@@ -35,7 +35,7 @@ func init() {
 		mutant{"key is 8 random bytes", "codec/websocket/stream.go",
 			"\tb := make([]byte, 16)\n\t_, _ = rand.Read(b)\n\treq = base64.StdEncoding.EncodeToString(b)\n\n\t// response", "\tb := make([]byte, 8)\n\t_, _ = rand.Read(b)\n\treq = base64.StdEncoding.EncodeToString(b)\n\n\t// response", "C18-R1"},
 		mutant{"key not random", "codec/websocket/stream.go",
-			"\tb := make([]byte, 16)\n\t_, _ = rand.Read(b)\n\treq = base64.StdEncoding.EncodeToString(b)\n\n\t// response", "\tb := make([]byte, 16)\n\treq = base64.StdEncoding.EncodeToString(b)\n\n\t// response", "C18-R1"},
+			"\tb := make([]byte, 16)\n\t_, _ = rand.Read(b)\n\treq = base64.StdEncoding.EncodeToString(b)\n\n\t// response", "\tb := make([]byte, 16)\n\t_ = rand.Reader\n\treq = base64.StdEncoding.EncodeToString(b)\n\n\t// response", "C18-R1"},
 		mutant{"accept key not checked", "codec/websocket/stream.go",
 			"\tif key := res.Header.Get(\"Sec-WebSocket-Accept\"); key != expectedKey {\n\t\treturn ErrCannotUpgrade\n\t}\n", "\t_ = expectedKey\n", "C18-R2"},
 		mutant{"any 1xx status accepted", "codec/websocket/rfc6455.go",
